@@ -23,7 +23,7 @@ PROPERTY = "C02"
 
 META = {
     "bounds": {
-        "quick": "programs `*= p0; c0 := V0; back: ...`: every single item and every pair starting with {inferred constant, inferred label, .incbin, *=, @= RAM} over 17 item kinds (LoROM; singles under HiROM) (inferred-width instructions from a := constant / backward label / macro parameter / loop variable, explicit sizes, data, .ascii, .text, .incbin of symbolic length < 0x120, *= and @= moves into ROM and RAM), each item followed by a label; 6 wrappers; 10 name-reuse patterns + 2 table-reload patterns (.text before a table its own scope / macro body loads later, code lengths differ); LoROM and HiROM; p0, move operands, V0 (24 bit) symbolic",
+        "quick": "programs `*= p0; c0 := V0; back: ...`: every single item and every pair starting with {inferred constant, inferred label, .incbin, *=, @= RAM, @= ROM} over 17 item kinds (LoROM; singles under HiROM) (inferred-width instructions from a := constant / backward label / macro parameter / loop variable, explicit sizes, data, .ascii, .text, .incbin of symbolic length < 0x120, *= and @= moves into ROM and RAM), each item followed by a label; 6 wrappers; 10 name-reuse patterns + 2 table-reload patterns (.text before a table its own scope / macro body loads later, code lengths differ); LoROM and HiROM; p0, move operands, V0 (24 bit) symbolic",
         "thorough": "all pairs, triples over the width-/position-relevant kinds + VERIF_SEED-drawn 150 programs of 4-5 items inside nested wrappers",
     },
     "outside": ["programs that leave the mapped ROM range", "forward references with inferred width (rejected by design)", ".incbin longer than the bound", "duplicate definitions in one scope"],
@@ -250,7 +250,7 @@ def jobs(tier, seed):
         seqs += list(itertools.product(ITEMS, repeat=k))
     interesting = {"inf-const", "inf-const-x", "inf-back", "inf-expr", "incbin", "text", "star", "at-rom", "at-ram"}
     if tier == "quick":
-        first = {"inf-const", "inf-back", "incbin", "star", "at-ram", "ascii-any"}
+        first = {"inf-const", "inf-back", "incbin", "star", "at-ram", "at-rom", "ascii-any"}
         seqs = [s for s in seqs if len(s) == 1 or (s[0] in first and s[1] != s[0])]
     else:
         first3 = {"inf-const", "inf-back", "incbin", "star", "at-ram"}
